@@ -13,9 +13,9 @@ import (
 
 // Wire types.
 const (
-	WTVarint = 0
+	WTVarint  = 0
 	WTFixed64 = 1
-	WTBytes  = 2
+	WTBytes   = 2
 	WTFixed32 = 5
 )
 
